@@ -112,6 +112,9 @@ class SystemWZ3(Inference):
                 # query that is not vacuously true cannot be inferred
                 return False
 
+            # worlds falsifying a conditional of the infinity layer are infeasible
+            for c in self.epistemic_state["partition"][-1]:
+                opt.add(c.make_not_A_or_B())
             result = self._rec_inference(
                 opt, len(self.epistemic_state["partition"]) - 2, query_z3
             )
